@@ -76,7 +76,7 @@ func (t *Tape) Draw(n int) int {
 	var v uint32
 	if t.replaying {
 		if t.pos < len(t.replay) {
-			v = t.replay[t.pos] % uint32(n)
+			v = (t.replay[t.pos] &^ markBit) % uint32(n)
 			t.pos++
 		} else {
 			v = 0
@@ -87,6 +87,47 @@ func (t *Tape) Draw(n int) int {
 	t.rec = append(t.rec, v)
 	return int(v)
 }
+
+// Mark puts an OBSERVATION on the tape instead of taking a decision from it: a
+// live tape records v (mod n) and returns it, a replayed tape returns what was
+// recorded. It is for the one place where a world looks at something it does
+// not control (the outcome of a free-running phase) and wants the controlled
+// phase that follows to be replayed the same way whatever the free-running
+// phase does next time. 0 must mean "nothing observed".
+func (t *Tape) Mark(v, n int) int {
+	if n <= 1 {
+		return 0
+	}
+	if t.Limit > 0 && len(t.rec) >= t.Limit {
+		return 0
+	}
+	var r uint32
+	if t.replaying {
+		// only a value that carries the mark bit is an observation: the raw tape of a
+		// seed (RawPrefix, used for cases that killed their process) has generator
+		// output at this position, which must read as "nothing observed" like the live run
+		if t.pos < len(t.replay) {
+			if x := t.replay[t.pos]; x&markBit != 0 {
+				r = (x &^ markBit) % uint32(n)
+			}
+			t.pos++
+		}
+	} else {
+		t.next() // keep the generator in step with a Draw at this position
+		if v > 0 {
+			r = uint32(v) % uint32(n)
+		}
+	}
+	if r != 0 {
+		t.rec = append(t.rec, r|markBit)
+	} else {
+		t.rec = append(t.rec, 0)
+	}
+	return int(r)
+}
+
+// markBit distinguishes a recorded observation from generator output (31 bits).
+const markBit = 1 << 31
 
 // Bool is true with probability num/den.
 func (t *Tape) Chance(num, den int) bool { return t.Draw(den) >= den-num }
